@@ -534,7 +534,10 @@ pub fn c05(case_seed: u64, acc: &mut Acc) {
         return;
     }
     let cfg = profile_expand();
-    let case = gen::generate(&mut r, &cfg);
+    let mut case = gen::generate(&mut r, &cfg);
+    // an error item in the middle of an expansion (the driver refuses one of its writes) must
+    // not disturb the rest of it
+    maybe_fault(&mut case, &mut r, 200);
     c05_case(&case, case_seed, "gen", acc);
 }
 
